@@ -1,7 +1,7 @@
 import AslModel.Model.Isa.Common
 import AslModel.Generated.Isa_Avr
 /-!
-# MODEL: codeavr.c with the default `CODESEGSIZE=1` (code segment addressed in 16-bit words) (C14)
+# MODEL: codeavr.c (C14) - first with the default `CODESEGSIZE=1` (code segment addressed in 16-bit words), the CPU argument in the last section
 
 `MakeCode_AVR` → `LookupInstTable` → `Decode*` over the `InstTable` regenerated from the current build
 (`Generated/Isa_Avr.lean`), one function per C function.  State the handlers read: `pCurrCPUProps`
@@ -358,5 +358,98 @@ def encode (x : Ctx) (s : Src) : Except Err (List Byte) :=
 
 /-- the `CPUProps[]` row of a `cpu` name -/
 def propsOf (name : String) : Option Props := cpuProps.find? (·.name == name)
+
+/-! ### CPU argument `CODESEGSIZE` (`cpu <device>:codesegsize=0|1`, `AVRArgs[]` of `codeavr_init`)
+
+`CodeSegSize = 1` (default): the code segment is addressed in 16-bit words - everything above.  `CodeSegSize = 0`: in
+bytes (`Grans[SegCode] = 1`); `SwitchTo_AVR` doubles `SegLimits[SegCode]` (and with it `CodeAdrIntType`, `SignMask`,
+`ORMask`), `GetWordCodeAddress` refuses odd addresses and halves the others, `GetNextCodeAddress` halves the program
+counter.  Only the handlers that call these two functions depend on the argument; `AppendCode` stores the same two bytes
+per word either way.  (`MakeCode_AVR` inserts a padding byte in front of an instruction at an odd byte address when
+`PADDING` is on - the default; the model describes instructions at even byte addresses.) -/
+
+/-- `Ctx` plus the CPU argument; `pc` = `EProgCounter()` in the address unit of the code segment -/
+structure CtxA extends Ctx where
+  codeSegSize : Nat
+deriving Repr
+
+/-- `SegLimits[SegCode]`: `FlashEndD16 << 4 | 0xf`, and `(SegLimits << 1) + 1` if `!CodeSegSize` -/
+def segLimitCodeA (p : Props) (codeSegSize : Nat) : Nat :=
+  if codeSegSize = 0 then segLimitCode p * 2 + 1 else segLimitCode p
+
+def codeAdrIntTypeA (p : Props) (codeSegSize : Nat) : Nat := getSmallestUIntType (segLimitCodeA p codeSegSize)
+
+/-- `CutAdr` with the `SignMask` / `ORMask` / `SegLimits[SegCode]` of the selected address unit -/
+def cutAdrA (p : Props) (codeSegSize : Nat) (adr : Int) : Int :=
+  let size : Int := (segLimitCodeA p codeSegSize : Int) + 1
+  let signMask : Int := size / 2
+  if adr / signMask % 2 ≠ 0 then adr % size - size else adr % size
+
+/-- `GetWordCodeAddress`: evaluate as `CodeAdrIntType`; in byte mode `Result & 1` ⇒ `ErrNum_NotAligned`, else `Result >>= 1` -/
+def getWordCodeAddressA (x : CtxA) (a : Int) : Except Err Int :=
+  andThen (evalInt (codeAdrIntTypeA x.p x.codeSegSize) a) fun r =>
+    if x.codeSegSize = 0 then (if r % 2 ≠ 0 then .error .notAligned else .ok (r / 2)) else .ok r
+
+/-- `GetNextCodeAddress`: `EProgCounter()`, `>>= 1` in byte mode, `+ 1` -/
+def getNextCodeAddressA (x : CtxA) : Int :=
+  (if x.codeSegSize = 0 then (x.pc : Int) / 2 else (x.pc : Int)) + 1
+
+def relDistA (x : CtxA) (a : Int) : Except Err Int :=
+  andThen (getWordCodeAddressA x a) fun t =>
+    let d := t - getNextCodeAddressA x
+    .ok (if x.wrap then cutAdrA x.p x.codeSegSize d else d)
+
+def decodeRelA (x : CtxA) (code : Nat) (args : List Int) : Except Err (List Byte) :=
+  match args with
+  | [a] =>
+    andThen (relDistA x a) fun d =>
+      if d < -64 ∨ d > 63 then .error .jmpDist else .ok (appendCode (code ||| (lowBits d 7 <<< 3)))
+  | _ => .error .argCnt
+
+def decodeBRBSBCA (x : CtxA) (idx : Nat) (args : List Int) : Except Err (List Byte) :=
+  match args with
+  | [a1, a2] =>
+    andThen (evalInt itBrb a1) fun bv => andThen (relDistA x a2) fun d =>
+      if d < -64 ∨ d > 63 then .error .jmpDist
+      else .ok (appendCode (0xf000 ||| idx ||| (lowBits d 7 <<< 3) ||| toWord bv))
+  | _ => .error .argCnt
+
+def decodeJMPCALLA (x : CtxA) (idx : Nat) (args : List Int) : Except Err (List Byte) :=
+  match args with
+  | [a] =>
+    if chkMinCore x.p gateJmpCall then
+      andThen (getWordCodeAddressA x a) fun t =>
+        let n := t.toNat
+        let k21_17 := n / 131072 % 32
+        let k16 := n / 65536 % 2
+        .ok (appendCode (0x940c ||| idx ||| (k21_17 <<< 4) ||| k16) ++ appendCode (n % 65536))
+    else .error .cpu
+  | _ => .error .argCnt
+
+def decodeRJMPCALLA (x : CtxA) (idx : Nat) (args : List Int) : Except Err (List Byte) :=
+  match args with
+  | [a] =>
+    andThen (relDistA x a) fun d =>
+      if d < -2048 ∨ d > 2047 then .error .jmpDist else .ok (appendCode (0xc000 ||| idx ||| lowBits d 12))
+  | _ => .error .argCnt
+
+/-- the handlers that work on code addresses -/
+def usesCodeAddr : Handler → Bool
+  | .rel _ | .brbsbc _ | .jmpcall _ | .rjmpcall _ => true
+  | _ => false
+
+def dispatchA (x : CtxA) (h : Handler) (args : List Int) : Except Err (List Byte) :=
+  match h with
+  | .rel code => decodeRelA x code args
+  | .brbsbc idx => decodeBRBSBCA x idx args
+  | .jmpcall idx => decodeJMPCALLA x idx args
+  | .rjmpcall idx => decodeRJMPCALLA x idx args
+  | h => dispatch x.toCtx h args
+
+/-- `MakeCode_AVR` for an instruction statement, with the CPU argument -/
+def encodeA (x : CtxA) (s : Src) : Except Err (List Byte) :=
+  match lookup s.mn with
+  | none => .error .unknownInstr
+  | some h => dispatchA x h s.args
 
 end AslModel.Isa.IAvr
